@@ -2465,7 +2465,7 @@ void _GD_UpdateAliases(DIRFILE *D, int reset)
 
   for (u = 0; u < D->n_entries; ++u)
     if (D->entry[u]->field_type == GD_ALIAS_ENTRY &&
-        D->entry[u]->e->entry[1] == NULL)
+        D->entry[u]->e->entry[0] == NULL)
     {
       _GD_ResolveAlias(D, D->entry[u], D->entry[u], 0);
     }
